@@ -44,6 +44,18 @@ func runC03(c *Ctx) {
 	c.guard("R03-balance", func() { c03Balance(c, m) })
 	c.guard("R03-negamax", func() { c03Paths(c, m) })
 	c.guard("R03-order", func() { c03Order(c) })
+	// negamax is only minimax if scores are totally ordered, negation reverses the order and the
+	// mate-distance increment preserves it (rules of C09, re-decided here)
+	r.Rule("R03-scores", "the score algebra the search computes with is sound: Less is the stated total order, Negate reverses it, IncrementMateDistance preserves it, Max/Min select by it - in every region of the pair space (rules of C09)", 170)
+	c.guard("R03-scores", func() {
+		r.WithAlias("R09-order", "R03-scores", func() {
+			r.WithAlias("R09-negate", "R03-scores", func() {
+				r.WithAlias("R09-incr", "R03-scores", func() {
+					r.WithAlias("R09-maxmin", "R03-scores", func() { c09Run(c) })
+				})
+			})
+		})
+	})
 	// a cut-off taken before any move was tried would hide a mate/stalemate at that node (rule of C13)
 	c.guard("R03-terminal", func() {
 		rec := recursiveSearchFuncs(c, m)
